@@ -932,13 +932,19 @@ fn extract<'tcx>(tcx: TyCtxt<'tcx>) -> Compilation {
 
         // ---- bodies
         let mut bodies = vec![];
-        for def in tcx.hir_body_owners() {
+        // constants first: evaluating a constant (done while dumping function bodies) steals its MIR
+        let mut owners: Vec<_> = tcx.hir_body_owners().collect();
+        owners.sort_by_key(|d| !matches!(tcx.def_kind(d.to_def_id()), DefKind::Const { .. } | DefKind::Static { .. } | DefKind::AssocConst { .. }));
+        for def in owners {
             let did = def.to_def_id();
             let kind = tcx.def_kind(did);
-            if !matches!(kind, DefKind::Fn | DefKind::AssocFn | DefKind::Closure) {
+            if !matches!(kind, DefKind::Fn | DefKind::AssocFn | DefKind::Closure | DefKind::Const { .. } | DefKind::Static { .. } | DefKind::AssocConst { .. }) {
                 continue;
             }
             let (body, promoted) = tcx.mir_promoted(def);
+            if body.is_stolen() || promoted.is_stolen() {
+                continue;
+            }
             let body = body.borrow();
             let promoted = promoted.borrow();
             let mut o: Vec<(&'static str, J)> = vec![];
@@ -948,6 +954,8 @@ fn extract<'tcx>(tcx: TyCtxt<'tcx>) -> Compilation {
             let k = match kind {
                 DefKind::Fn => "fn",
                 DefKind::AssocFn => "assoc_fn",
+                DefKind::Const { .. } | DefKind::AssocConst { .. } => "const",
+                DefKind::Static { .. } => "static",
                 _ => {
                     if body.coroutine.is_some() {
                         "coroutine"
